@@ -140,6 +140,10 @@ class SymF:
         return f"SymF({self.e})"
 
 
+import numbers
+numbers.Real.register(SymF)
+
+
 def is_finite(x):
     if isinstance(x, SymF):
         return SymBool(z3.And(z3.Not(z3.fpIsNaN(x.e)), z3.Not(z3.fpIsInf(x.e))))
